@@ -1,6 +1,6 @@
 (* Props/C06.v — C06 property theorems only. *)
 From Coq Require Import List String Arith Bool.
-From Verif Require Import Base.StrX Model.C06_Tags Proofs.C06.
+From Verif Require Import Base.StrX Model.C06_Tags Model.C06_Loops Proofs.C06 Proofs.C06l Gen.DeleteLoops.
 Import ListNotations.
 Open Scope string_scope.
 
@@ -56,6 +56,31 @@ Print Assumptions C06_push_then_get.
 Theorem C06_exact_name_first : forall idx t d, t <> "" -> resolve idx t = Some d -> index_get_tag idx t = Some d.
 Proof. exact get_tag_exact_first. Qed.
 Print Assumptions C06_exact_name_first.
+
+(* the loops as they are written: TagDelete and ManifestDelete walk index.Manifests from the last index down to 0 and
+   delete in place (Model/C06_Loops.v transliterates the indexing and slices.Delete).  For EVERY predicate and EVERY list the
+   reverse loop never indexes out of range and leaves exactly the elements that do not match - which is what the model's
+   tag_delete / manifest_delete (a filter) compute; the forward variant leaves the second of two adjacent matches.  The
+   generated table says that every delete-while-iterating loop of scheme/ocidir is such a reverse loop. *)
+Theorem C06_reverse_delete_loop_exact : forall (A : Type) (p : A -> bool) l, rev_delete p l = Some (filter (fun x => negb (p x)) l).
+Proof. exact @rev_delete_exact. Qed.
+Print Assumptions C06_reverse_delete_loop_exact.
+Theorem C06_tag_delete_is_the_loop : forall idx t r, tag_delete idx t = Some r -> rev_delete (is_tag t) idx = Some r.
+Proof. intros idx t r H. unfold tag_delete in H. destruct (existsb (is_tag t) idx); [|discriminate]. injection H as <-. apply rev_delete_exact. Qed.
+Print Assumptions C06_tag_delete_is_the_loop.
+Theorem C06_manifest_delete_is_the_loop : forall idx d, rev_delete (fun e => Nat.eqb (e_dig e) d) idx = Some (manifest_delete idx d).
+Proof. intros. apply rev_delete_exact. Qed.
+Print Assumptions C06_manifest_delete_is_the_loop.
+Theorem C06_forward_delete_loop_refuted : exists (l : list nat), fwd_delete (Nat.eqb 7) l <> filter (fun x => negb (Nat.eqb 7 x)) l.
+Proof. exact fwd_delete_refuted. Qed.
+Print Assumptions C06_forward_delete_loop_refuted.
+Theorem C06_all_delete_loops_reverse : forall x, In x delete_loops -> dl_reverse x = true.
+Proof.
+  assert (H : forallb dl_reverse delete_loops = true) by (vm_compute; reflexivity).
+  intros x Hin. rewrite forallb_forall in H. exact (H x Hin).
+Qed.
+Print Assumptions C06_all_delete_loops_reverse.
+Example C06_delete_loops_found : 2 <= List.length delete_loops. Proof. vm_compute. repeat constructor. Qed.
 
 (* tags accepted by the reference grammar (no ':') are plain *)
 Theorem C06_plain_tags : forall t, t <> "" -> no_colon t = true -> plain t.
